@@ -274,6 +274,7 @@ C33_Counters ==
       toSecond == SumLen(wr, "B", Conns)
   IN /\ C33_CountersBound(ctr, Accepted, toFirst, toSecond)
      /\ ctr.open = Cardinality({k \in Conns : Live(k) /\ sup[k].pc # "fin"})
+     /\ (\A k \in Conns : Live(k) => sup[k].pc = "fin") => C33_OpenReturnsToZero(ctr)
      /\ Quiet => (C33_CountersRest(ctr, Accepted, toFirst, toSecond, StillOpen) /\ C33_CountersDirection(ctr, toFirst, toSecond))
 
 \* deliberately too strong (used once to show why the binding waits for a stable reading):
